@@ -192,16 +192,19 @@ func (h *schedHarness) step() stepRes {
 		c.release <- grel{override: true, n: n}
 		<-c.done
 		c = h.next()
-		if c.op != "head" {
-			panic("sched harness: expected Head after Size, got " + c.op)
-		}
-		c.release <- grel{override: true, job: &fakeDue{h.fakeJD, quartz.NowNano() - int64(time.Millisecond)}}
-		<-c.done
-		c = h.next()
-		if c.op == "size" { // the select took a pending interrupt token: go round again
+		if c.op == "size" { // the loop is backing off after a failed or empty Pop: it does not look at the head in this iteration
 			h.pending = c
 			continue
 		}
+		if c.op == "head" {
+			c.release <- grel{override: true, job: &fakeDue{h.fakeJD, quartz.NowNano() - int64(time.Millisecond)}}
+			<-c.done
+			c = h.next()
+			if c.op == "size" { // the select took a pending interrupt token: go round again
+				h.pending = c
+				continue
+			}
+		} // else: the tick that ends a back-off pops without looking at the head again
 		if c.op != "pop" {
 			panic("sched harness: expected Pop, got " + c.op)
 		}
@@ -412,6 +415,9 @@ func schedRun(args []string) int {
 				case 1:
 					flags = " nokey"
 					jd = quartz.NewJobDetailWithOptions(&tagJob{tag: tag, run: h.recordExec}, nil, opts)
+				case 2: // a job detail without options is an illegal argument too (the model files it under "nil inside the detail")
+					flags = " nodetail"
+					jd = quartz.NewJobDetailWithOptions(&tagJob{tag: tag, run: h.recordExec}, quartz.NewJobKeyWithGroup(nm, g), nil)
 				default:
 					jd = quartz.NewJobDetailWithOptions(&tagJob{tag: tag, run: h.recordExec}, quartz.NewJobKeyWithGroup(nm, g), opts)
 				}
